@@ -81,6 +81,37 @@ var lcKinds = map[string]func() (interceptor.Factory, error){
 	},
 }
 
+// a chain member whose Close fails: the remaining members must still be closed
+type lcFailCloser struct{ interceptor.NoOp }
+
+func (*lcFailCloser) Close() error { return io.ErrUnexpectedEOF }
+
+type lcChainFactory struct {
+	inner func() (interceptor.Factory, error)
+	first bool
+}
+
+func (c lcChainFactory) NewInterceptor(id string) (interceptor.Interceptor, error) {
+	f, err := c.inner()
+	if err != nil {
+		return nil, err
+	}
+	ic, err := f.NewInterceptor(id)
+	if err != nil {
+		return nil, err
+	}
+	if c.first {
+		return interceptor.NewChain([]interceptor.Interceptor{&lcFailCloser{}, ic}), nil
+	}
+	return interceptor.NewChain([]interceptor.Interceptor{ic, &lcFailCloser{}}), nil
+}
+
+func init() {
+	rr, pli := lcKinds["rr"], lcKinds["pli"]
+	lcKinds["chainrr"] = func() (interceptor.Factory, error) { return lcChainFactory{inner: rr, first: true}, nil }
+	lcKinds["chainpli"] = func() (interceptor.Factory, error) { return lcChainFactory{inner: pli, first: false}, nil }
+}
+
 func lcKindNames() []string {
 	var ks []string
 	for k := range lcKinds {
@@ -149,6 +180,12 @@ type lcState struct {
 	gate       chan struct{} // when non-nil, stream writers block on it (a slow downstream)
 	inGate     int
 	appWriting bool
+	nackMask   uint16
+	rtcpGate   chan struct{} // when non-nil, the RTCP writer blocks on it
+	inRtcpGate int
+	// RTP writes that reached a stream writer for an SSRC after its Unbind returned
+	rtpAfterUnbind map[uint32]int
+	unbound        map[uint32]bool
 }
 
 func (s *lcState) call(o *Out, f func()) {
@@ -212,8 +249,10 @@ func lcRun(t *testing.T, ops []string, o *Out) {
 		}()
 		synctest.Test(t, func(t *testing.T) {
 			s := &lcState{emitted: map[uint32]bool{}, failAt: map[int]bool{}, writers: map[uint32]interceptor.RTPWriter{},
-				readers: map[uint32]interceptor.RTPReader{}, rseq: map[uint32]uint16{}, lastSeq: map[uint32]uint16{}}
+				readers: map[uint32]interceptor.RTPReader{}, rseq: map[uint32]uint16{}, lastSeq: map[uint32]uint16{},
+				rtpAfterUnbind: map[uint32]int{}, unbound: map[uint32]bool{}}
 			closed := false
+			sawEnd := false
 			for _, op := range ops {
 				name, a := kv(op)
 				if s.ic == nil && name != "new" && name != "end" {
@@ -233,7 +272,7 @@ func lcRun(t *testing.T, ops []string, o *Out) {
 						return
 					}
 					switch a["kind"] {
-					case "rr", "sr", "pli", "nackgen":
+					case "rr", "sr", "pli", "nackgen", "chainrr", "chainpli":
 						s.exact = true
 					}
 					for _, k := range parseInts(a["failat"]) {
@@ -243,14 +282,22 @@ func lcRun(t *testing.T, ops []string, o *Out) {
 					s.call(o, func() {
 						s.ic.BindRTCPWriter(interceptor.RTCPWriterFunc(func(pkts []rtcp.Packet, _ interceptor.Attributes) (int, error) {
 							s.mu.Lock()
-							defer s.mu.Unlock()
 							s.rtcpN++
 							for _, p := range pkts {
 								for _, m := range lcMentioned(p) {
 									s.emitted[m] = true
 								}
 							}
-							if s.failAt[s.rtcpN] {
+							fail := s.failAt[s.rtcpN]
+							g := s.rtcpGate
+							if g != nil {
+								s.inRtcpGate++
+							}
+							s.mu.Unlock()
+							if g != nil {
+								<-g
+							}
+							if fail {
 								return 0, io.ErrClosedPipe
 							}
 							return 0, nil
@@ -263,8 +310,9 @@ func lcRun(t *testing.T, ops []string, o *Out) {
 							k := s.rtcpSeen
 							var pk []rtcp.Packet
 							if s.nackFor != nil {
-								pk = []rtcp.Packet{&rtcp.TransportLayerNack{SenderSSRC: 9, MediaSSRC: s.nackFor[0], Nacks: []rtcp.NackPair{{PacketID: uint16(s.nackFor[1])}}}}
+								pk = []rtcp.Packet{&rtcp.TransportLayerNack{SenderSSRC: 9, MediaSSRC: s.nackFor[0], Nacks: []rtcp.NackPair{{PacketID: uint16(s.nackFor[1]), LostPackets: rtcp.PacketBitmap(s.nackMask)}}}}
 								s.nackFor = nil
+								s.nackMask = 0
 								raw, _ := rtcp.Marshal(pk)
 								return copy(b, raw), at, nil
 							}
@@ -295,6 +343,9 @@ func lcRun(t *testing.T, ops []string, o *Out) {
 									<-g
 								}
 								s.mu.Lock()
+								if s.unbound[ssrc] && !s.appWriting {
+									s.rtpAfterUnbind[ssrc]++
+								}
 								if s.closedAt && !s.appWriting {
 									s.lateRTP++ // not the pass-through of an application write: sent by the interceptor itself
 								}
@@ -365,6 +416,84 @@ func lcRun(t *testing.T, ops []string, o *Out) {
 				case "close":
 					s.call(o, func() { _ = s.ic.Close(); s.mu.Lock(); s.closedAt = true; s.mu.Unlock() })
 					closed = true
+				case "gateclose2":
+					// the RTCP writer is slow: a tick leaves the loop inside Write; two Close calls from two goroutines
+					// must both wait for it
+					g := make(chan struct{})
+					s.mu.Lock()
+					s.rtcpGate = g
+					s.mu.Unlock()
+					time.Sleep(time.Duration(atoi(a["ms"])) * time.Millisecond)
+					synctest.Wait()
+					s.mu.Lock()
+					stuck := s.inRtcpGate > 0
+					s.mu.Unlock()
+					c1, c2 := make(chan struct{}), make(chan struct{})
+					go func() { _ = s.ic.Close(); close(c1) }()
+					synctest.Wait()
+					go func() { _ = s.ic.Close(); close(c2) }()
+					synctest.Wait()
+					early := func(c chan struct{}) bool {
+						select {
+						case <-c:
+							return true
+						default:
+							return false
+						}
+					}
+					e1, e2 := early(c1), early(c2)
+					s.mu.Lock()
+					s.rtcpGate = nil
+					s.mu.Unlock()
+					close(g)
+					synctest.Wait()
+					<-c1
+					<-c2
+					s.mu.Lock()
+					s.closedAt = true
+					s.mu.Unlock()
+					closed = true
+					o.P("stuck=%v early1=%v early2=%v", stuck, e1 && stuck, e2 && stuck)
+				case "nackgateunbind":
+					// a multi-packet retransmission is inside a slow downstream Write while the stream is unbound: after
+					// Unbind returns at most the packet in flight may still be written for that SSRC
+					ssrc := uint32(atoi(a["ssrc"]))
+					if s.rtcpR == nil {
+						o.P("unbound")
+						continue
+					}
+					g := make(chan struct{})
+					s.mu.Lock()
+					s.gate = g
+					s.inGate = 0
+					s.mu.Unlock()
+					last := s.lastSeq[ssrc]
+					s.nackFor = &[2]uint32{ssrc, uint32(last - 3)}
+					s.nackMask = 0x7
+					buf := make([]byte, 1500)
+					_, _, _ = s.rtcpR.Read(buf, interceptor.Attributes{})
+					synctest.Wait()
+					s.mu.Lock()
+					inflight := s.inGate
+					s.mu.Unlock()
+					ud := make(chan struct{})
+					go func() { s.ic.UnbindLocalStream(lcInfo(ssrc)); close(ud) }()
+					synctest.Wait()
+					select {
+					case <-ud:
+					default:
+						o.P("BLOCKED")
+					}
+					s.mu.Lock()
+					s.unbound[ssrc] = true
+					s.gate = nil
+					s.mu.Unlock()
+					close(g)
+					synctest.Wait()
+					s.mu.Lock()
+					n := s.rtpAfterUnbind[ssrc]
+					s.mu.Unlock()
+					o.P("inflight %d after-unbind %d", inflight, n)
 				case "nackgateclose":
 					// a retransmission is inside a slow downstream Write while Close is called: Close must wait for it
 					ssrc := uint32(atoi(a["ssrc"]))
@@ -425,9 +554,16 @@ func lcRun(t *testing.T, ops []string, o *Out) {
 					})
 					closed = true
 				case "end":
+					sawEnd = true
 				default:
 					o.P("bad-op")
 				}
+			}
+			if !sawEnd {
+				if !closed && s.ic != nil {
+					_ = s.ic.Close()
+				}
+				return
 			}
 			s.flush(o, "tail")
 			if !closed && s.ic != nil {
@@ -440,7 +576,9 @@ func lcRun(t *testing.T, ops []string, o *Out) {
 			o.P("blocked %d", s.blocked)
 		})
 	}()
-	o.P("end %s", residual)
+	if residual != "clean" || endSeen(ops) {
+		o.P("end %s", residual)
+	}
 	_ = base
 }
 
@@ -461,7 +599,7 @@ func init() {
 			if r.Chance(1, 4) {
 				ops[0] += fmt.Sprintf(" failat=%d,%d", r.Range(1, 4), r.Range(5, 9))
 			}
-			templ := idx / len(kinds) % 6
+			templ := idx / len(kinds) % 8
 			seq := 1
 			traffic := func(ssrcs []int) {
 				for _, s := range ssrcs {
@@ -492,11 +630,27 @@ func init() {
 				ops = append(ops, "bindw", "bindr", "bl ssrc=1", "bl ssrc=2")
 				traffic2 := []string{"w ssrc=1 seq=7", "w ssrc=2 seq=8", "w ssrc=1 seq=9"}
 				ops = append(ops, traffic2[:r.Range(1, 3)]...)
-				if r.Bool() {
+				switch r.Intn(3) {
+				case 0:
 					ops = append(ops, fmt.Sprintf("nackclose ssrc=%d", r.Range(1, 2)), "adv ms=25")
-				} else {
+				case 1:
 					ops = append(ops, fmt.Sprintf("nackgateclose ssrc=%d", r.Range(1, 2)), "adv ms=25")
+				default:
+					ops = append(ops, "w ssrc=1 seq=11", "w ssrc=1 seq=12", "w ssrc=1 seq=13", "w ssrc=1 seq=14",
+						"nackgateunbind ssrc=1", "adv ms=25")
 				}
+			case 5: // a slow RTCP writer, then two overlapping Close calls
+				ops = append(ops, "bindw", "br ssrc=1", "bl ssrc=1", "br ssrc=2")
+				traffic([]int{1})
+				traffic([]int{1})
+				ops = append(ops, "adv ms=3")
+				switch kind {
+				case "rr", "sr", "pli", "nackgen", "chainrr", "chainpli":
+					ops = append(ops, fmt.Sprintf("gateclose2 ms=%d", r.Pick(4, 12, 25)))
+				default:
+					ops = append(ops, "close")
+				}
+				ops = append(ops, "adv ms=25")
 			default: // random
 				alphabet := []string{"bindw", "bindr", "bl ssrc=1", "br ssrc=1", "bl ssrc=2", "br ssrc=2", "bl ssrc=3", "br ssrc=3",
 					"ul ssrc=1", "ur ssrc=1", "ul ssrc=2", "ur ssrc=2", "w ssrc=1 seq=%d", "w ssrc=2 seq=%d", "r ssrc=1", "r ssrc=2", "r ssrc=3",
@@ -526,4 +680,13 @@ func init() {
 		},
 		Run: lcRun,
 	})
+}
+
+func endSeen(ops []string) bool {
+	for _, op := range ops {
+		if op == "end" {
+			return true
+		}
+	}
+	return false
 }
